@@ -1166,7 +1166,16 @@ class LayoutSwapper(LayoutManager):
             # If the distribution is the same then the communicators should
             # also be the same
             if (nDim1 == nDim2):
-                return all([c in handler1.communicators for c in handler2.communicators])
+                if (not all([c in handler1.communicators for c in handler2.communicators])):
+                    return False
+
+                # The data is only moved locally so each communicator must
+                # also distribute the same dimension in both layouts
+                dims1 = handler1.getLayout(layout1).dims_order
+                dims2 = handler2.getLayout(layout2).dims_order
+                comms1 = list(handler1.communicators)
+                return all([c.Get_size() == 1 or dims1[comms1.index(c)] == dims2[j]
+                            for j, c in enumerate(handler2.communicators)])
 
             # Ensure that 2 is the larger handler to facilitate steps
             if (nDim1 > nDim2):
